@@ -235,6 +235,39 @@ fn random_nested(src: &mut Src, obs: &mut Obs) -> Res {
     check_q(&q, &doc, obs, true)
 }
 
+/// the same index arithmetic where an index is not a top-level selector: singular queries in
+/// comparisons, existence tests, function arguments
+fn box_embedded_index(obs: &mut Obs, _thorough: bool) -> Res {
+    let mut n = 0;
+    for len in 0..=6usize {
+        // rows[k] = [k*10, k*10+1, ...] of length `len`; the filter runs over the rows
+        let rows: Vec<J> = (0..3).map(|k| J::Arr((0..len as i64).map(|i| J::Int(k * 10 + i)).collect())).collect();
+        let doc = J::Obj(vec![("rows".to_string(), J::Arr(rows)), ("flat".to_string(), arr(len))]).sorted();
+        for i in -8..=8i64 {
+            for text in [
+                format!("$.rows[?@[{}] == 1]", i),
+                format!("$.rows[?@[{}] >= 10]", i),
+                format!("$.rows[?@[{}]]", i),
+                format!("$.rows[?!@[{}]]", i),
+                format!("$.rows[?$.flat[{}] == @[0]]", i),
+                format!("$.rows[?$.flat[{}]]", i),
+                format!("$.rows[?length(@[{}]) == 1 || count(@[{}]) == 1]", i, i),
+                format!("$.rows[?value(@[{}]) == @[{}]]", i, if i >= 0 { i } else { len as i64 + i }),
+                format!("$.rows[?@[{}] == @[{}]]", i, if i >= 0 { i - len as i64 } else { len as i64 + i }),
+            ] {
+                let q = match crate::recog::parse_ast(&text) {
+                    Some(q) => q,
+                    None => return Err(Failure::new("harness inconsistency: box query not recognised", json!({"query": text}))),
+                };
+                check_q(&q, &doc, obs, true)?;
+                n += 1;
+            }
+        }
+    }
+    obs.boxes.push(json!({"box": "indices -8..8 inside singular queries of comparisons, existence tests and function arguments, rows of length 0..6", "queries": n, "exhaustive": true}));
+    Ok(())
+}
+
 fn direct(case: &Value, obs: &mut Obs) -> Res {
     let (q, _text, doc) = crate::props::c01::parse_direct(case)?;
     check_q(&q, &doc, obs, true)
@@ -253,6 +286,7 @@ pub fn prop() -> Prop {
         subs: vec![
             Sub { name: "box-small", kind: Kind::Exhaustive(box_small) },
             Sub { name: "box-boundary", kind: Kind::Exhaustive(box_boundary) },
+            Sub { name: "box-embedded-index", kind: Kind::Exhaustive(box_embedded_index) },
             Sub { name: "box-non-arrays", kind: Kind::Exhaustive(box_non_arrays) },
             Sub { name: "random-nested", kind: Kind::Random { f: random_nested, quick: 200_000, thorough: 4_000_000, len: 400 } },
         ],
